@@ -597,6 +597,7 @@ class DropDuplicates(Unique):
             columns = determine_column_projection(
                 self, parent, dependents, additional_columns=self.subset
             )
+            columns = columns if isinstance(columns, list) else [columns]
             if set(columns) == set(self.frame.columns):
                 # Don't add unnecessary Projections, protects against loops
                 return
